@@ -128,6 +128,7 @@ func main() {
 		timeout := fs.Int("t", 10, "per-query timeout (s)")
 		out := fs.String("o", "/verif/work/vc", "VC output dir")
 		verbose := fs.Bool("v", false, "verbose")
+		doReplay := fs.Bool("replay", false, "replay refuted obligations on the real code")
 		fs.Parse(os.Args[2:])
 		e, err := LoadEngine()
 		if err != nil {
@@ -141,15 +142,62 @@ func main() {
 					continue
 				}
 				found = true
-				res := e.VerifyFunction(e.funcs[k], VerifyOpts{TimeoutS: *timeout, OutDir: *out})
+				ec := *e
+				res := ec.VerifyFunction(e.funcs[k], VerifyOpts{TimeoutS: *timeout, OutDir: *out})
 				printResult(res, *verbose)
+				if *doReplay {
+					for _, ob := range res.Obligations {
+						if ob.Status == "refuted" {
+							p, ok := tryReplay(&ec, res, ob)
+							fmt.Printf("   replay %s: confirmed=%v artefact=%s\n", ob.Name, ok, p)
+						}
+					}
+				}
 			}
 			if !found {
 				fmt.Printf("no function matches %q\n", pat)
 			}
 		}
+	case "sweep":
+		// zero-annotation safety sweep over all functions whose key contains the pattern
+		e, err := LoadEngine()
+		if err != nil {
+			fmt.Fprintln(os.Stderr, err)
+			os.Exit(2)
+		}
+		var keys []string
+		for _, k := range sortedKeys(e.funcs) {
+			if len(os.Args) > 2 && !strings.Contains(k, os.Args[2]) {
+				continue
+			}
+			if len(e.funcs[k].Blocks) == 0 {
+				continue
+			}
+			keys = append(keys, k)
+		}
+		results := runFunctions(e, keys, VerifyOpts{TimeoutS: 5, OutDir: "/verif/work/vc/sweep"})
+		nf, nr, nob, nd := 0, 0, 0, 0
+		for _, r := range results {
+			nf++
+			if r.OutOfReach != "" {
+				nr++
+				fmt.Printf("OUT  %s: %s\n", r.Display, r.OutOfReach)
+				continue
+			}
+			for _, ob := range r.Obligations {
+				nob++
+				if ob.Status == "discharged" {
+					nd++
+				} else {
+					fmt.Printf("%-9s %s\n", ob.Status, ob.Name)
+				}
+			}
+		}
+		fmt.Printf("functions=%d out-of-reach=%d obligations=%d discharged=%d\n", nf, nr, nob, nd)
 	case "check":
 		os.Exit(cmdCheck(os.Args[2:]))
+	case "replay":
+		os.Exit(cmdReplay(os.Args[2:]))
 	default:
 		fmt.Fprintln(os.Stderr, "unknown command", os.Args[1])
 		os.Exit(2)
